@@ -249,6 +249,22 @@ def run_graph(case):
         # ANOTHER model, for a meter in a zone that shares this zone's UTC offset at both ends of the year but not its clock changes
         # (America/Regina: UTC-6 all year), is fitted on and predicts the very same instants
         alphabet.append(("other_model_in_another_zone_same_instants", "other_zone"))
+    unfittable = None
+    if base_family(family) in ("daily", "billing"):
+        # a refit ATTEMPT that fails inside the fit (a handful of days of a meter in another zone, disqualification ignored): the caller
+        # sees the exception and keeps using the model it had
+        import opendsm.eemeter as em
+
+        try:
+            fr_u = ds.daily_frame(start="2021-01-01", days=46, tz="Europe/Berlin", wseed=2, seed=9)
+            if base_family(family) == "daily":
+                unfittable = em.DailyBaselineData(fr_u.iloc[:5], is_electricity_data=True)
+            else:
+                reads_u = pd.Series([300.0, 900.0, np.nan], index=fr_u.index[[0, 9, 39]], name="observed")
+                unfittable = em.BillingBaselineData.from_series(reads_u, fr_u["temperature"], is_electricity_data=True)
+            alphabet.append(("refit_attempt_that_fails", "fit_unfittable"))
+        except Exception as exc:
+            skipped.append(f"refit_attempt_that_fails: data class raised {type(exc).__name__}")
     other_frame = baseline_frame(family, 365, seed=5)
     if family == "hourly_shared_settings":
         other_frame["occupancy"] = ((other_frame.index.hour >= 8) & (other_frame.index.hour < 18)).astype(float) * (1 + other_frame.index.dayofweek % 3)
@@ -272,6 +288,12 @@ def run_graph(case):
                     fr_o = ds.hourly_frame(start=start, days=ndays, tz=ZONE, wseed=1, seed=11, solar=base_family(family) == "hourly_solar").tz_convert(oz)
                     outs.append(F.fp(predict(family, om, em.HourlyReportingData(fr_o, is_electricity_data=True))))
             return {"out": "other_zone:" + F.fp(outs)}
+        if op == "fit_unfittable":
+            try:
+                m.fit(unfittable, ignore_disqualification=True)
+                return {"out": "refit_succeeded"}
+            except Exception as exc:
+                return {"out": "fit_raised:" + type(exc).__name__}
         if op == "fit_other":
             other = fit(family, new_model(family), make_baseline(family, other_frame.copy()))
             return {"out": "fitted_other:" + F.fp(other.to_json())}
@@ -295,6 +317,10 @@ def run_graph(case):
             # the FIRST predict a data object ever sees (later ones may find the object already altered and change nothing more)
             viol.append({"clause": "predict_modifies_data_object", "key": dict(key0),
                          "detail": f"{name} (first use of this data object): data object attributes changed: {ref[name]['data_changed']}"})
+    if ref.get("refit_attempt_that_fails", {}).get("out") == "refit_succeeded":
+        # the data turned out to be fittable: that refit legitimately replaces the model - not an operation of this graph
+        alphabet = [a for a in alphabet if a[0] != "refit_attempt_that_fails"]
+        skipped.append("refit_attempt_that_fails: the refit succeeded")
     # reference must itself be reproducible
     for name, op in alphabet[:3]:
         again = step(copy.deepcopy(model), op)
